@@ -77,7 +77,8 @@ def run_search_family(prop, tier, props_arg, level="model_checking", families=No
                     return (fam, consts, r, None, None)
                 rp = os.path.join(work, f"rep_{i}.json")
                 fp = os.path.join(work, f"fail_{i}.ndjson")
-                cmd = [vh, sub, "-in", out, "-props", props_arg, "-report", rp, "-fail", fp] + (extra_args or [])
+                cmd = [vh, sub, "-in", out, "-props", props_arg, "-report", rp, "-fail", fp] + \
+                      [a.replace("{i}", str(i)).replace("{work}", work) for a in (extra_args or [])]
                 p = subprocess.run(cmd, capture_output=True, text=True, timeout=3000)
                 if per_output and p.returncode == 0:
                     try:
@@ -254,6 +255,93 @@ def iter_trace_stage(prop, max_outputs=3, maxpat=120):
     return per_output
 
 
+def validate_trace(module, trace_path, work, tag, consts=None, invariants=None):
+    """Run a Trace_* specification on a recorded ndjson trace. Returns (TLCResult, accepted, first_bad_line)."""
+    tout = os.path.join(work, f"trace_{tag}.tlc")
+    scratch = tempfile.mkdtemp(prefix="vtr_")
+    try:
+        shutil.copy(trace_path, os.path.join(scratch, "trace.ndjson"))
+        c = {"TraceFile": "trace.ndjson"}
+        c.update(consts or {})
+        body = "SPECIFICATION Spec\nPOSTCONDITION Accepted\n" + ("INVARIANTS " + " ".join(invariants) + "\n" if invariants else "")
+        r = vlib.run_tlc(module, c, body, tout, workers=1, timeout=2400, scratch=scratch, heap="6g")
+    finally:
+        shutil.rmtree(scratch, ignore_errors=True)
+    txt = open(tout, errors="replace").read()
+    rejected = "Postcondition Accepted" in txt and "is false" in txt
+    if rejected:
+        r.error = None
+    return r, (not rejected and not r.error and not r.violation), r.depth
+
+
+def object_stage(prop, tier):
+    """RegexObject: TLC explores the life-cycle state graph and prints every transition; each is replayed on real values."""
+    def run(vh, work):
+        out = os.path.join(work, "object.out")
+        nvals = [1, 2] if tier == "quick" else [1, 2, 3]
+        r = vlib.run_tlc("RegexObject", {"Vals": set(nvals)}, "SPECIFICATION Spec\nINVARIANT TypeOK\nPROPERTY ModeIsolation\n", out,
+                         workers=8, timeout=3000)
+        if r.error or r.violation:
+            return {"machinery": [f"RegexObject: {(r.error or r.violation)[:500]}"]}
+        rp, fp = os.path.join(work, "object.json"), os.path.join(work, "object_fail.ndjson")
+        p = subprocess.run([vh, "object", "-in", out, "-report", rp, "-fail", fp], capture_output=True, text=True, timeout=3000)
+        os.remove(out)
+        if p.returncode != 0:
+            return {"machinery": ["object replay: " + p.stderr[-500:]]}
+        rep = vlib.read_report(rp)
+        return {"states": r.distinct, "transitions": r.generated, "traces": rep.get("cases", 0), "fail_path": fp,
+                "machinery": rep.get("machinery_errors") or [],
+                "info": {"object_model": {"module": "RegexObject", "values": len(nvals), "distinct_states": r.distinct,
+                                          "transitions_replayed": rep.get("cases", 0), "calls": rep.get("calls", 0),
+                                          "spec_gaps": rep.get("spec_gaps", 0)}}}
+    return run
+
+
+def backtrack_stages(prop, tier):
+    q = tier == "quick"
+    consts = {"G": 4, "MaxN": 2 if q else 3, "MaxSearches": 5 if q else 6}
+    cfg = "SPECIFICATION Spec\nINVARIANTS TypeOK NoStale Bounded\n" + ("PROPERTY Termination\n" if q else "")
+    st = [tlc_model_stage("Backtrack", "Backtrack", dict(consts, WrapClears="cap"), cfg, workers=4),
+          tlc_model_stage("Backtrack_len_control", "Backtrack", dict(consts, WrapClears="len"),
+                          "SPECIFICATION Spec\nINVARIANTS TypeOK NoStale Bounded\n", workers=2, expect_violation=True)]
+
+    def trace(vh, work):
+        tr = os.path.join(work, "bt.ndjson")
+        rp, fp = os.path.join(work, "bt.json"), os.path.join(work, "bt_fail.ndjson")
+        p = subprocess.run([vh, "bttrace", "-out", tr, "-report", rp, "-fail", fp, "-npat", "1" if q else "3", "-wraps", "1" if q else "2"],
+                           capture_output=True, text=True, timeout=1800)
+        if p.returncode != 0:
+            return {"machinery": ["bttrace: " + p.stderr[-500:]]}
+        rep = vlib.read_report(rp)
+        r, ok, depth = validate_trace("Trace_Backtrack", tr, work, "bt", consts={"G": 65536}, invariants=["Bounded"])
+        res = {"states": r.distinct, "transitions": r.generated, "traces": rep.get("cases", 0), "fail_path": fp,
+               "info": {"backtracker_trace": {"events": rep["extra"]["events"], "generation_bumps": rep["extra"]["bumps"],
+                                              "probes_aged_vs_fresh": rep.get("cases", 0), "accepted": ok}}}
+        if r.error or r.violation:
+            res["machinery"] = [f"Trace_Backtrack: {(r.error or r.violation)[:500]}"]
+        elif not ok:
+            lines = open(tr).read().splitlines()
+            bad = lines[depth - 1] if 0 < depth <= len(lines) else "?"
+            with open(fp, "a") as fh:
+                fh.write(json.dumps({"prop": prop, "api": "Backtracker.visited-table", "mode": "first", "pattern": "ab|a[bc]+d|(a|b)*c",
+                                     "hay": "", "scope": "Backtracker", "args": f"trace line {depth}",
+                                     "want": "an event allowed by Trace_Backtrack (generation +1 mod 65536; overflow clears the whole capacity; need <= cap)",
+                                     "got": bad}) + "\n")
+        return res
+    return st + [trace]
+
+
+def c13(prop, tier):
+    return run_search_family(prop, tier, prop, subcmd="history", budget_scale=0.5 if tier == "quick" else 0.7,
+                             stages=[object_stage(prop, tier)] + backtrack_stages(prop, tier),
+                             rule="relational (aged value vs freshly compiled value): every haystack of a TLC-generated record in order through a "
+                                  "rotating API on one aged value per pattern and mode, each call repeated, GC in between, first calls repeated at the "
+                                  "end; RegexObject transitions (Use) replayed; deep backtracker history through a uint16 generation overflow recorded by "
+                                  "hook H-bt and validated by Trace_Backtrack; non-trivial = reference has a match on a non-empty haystack",
+                             assumptions=["relational: the fresh value's answer is the reference (whether it equals regexp is C01-C04's business)",
+                                          "the protocol models (Backtrack, RegexObject) are bound to the code by trace validation / transition replay"])
+
+
 def c_search(prop, tier):
     if prop == "C04":
         return run_search_family(prop, tier, prop, stages=iter_model_stages(tier), per_output=iter_trace_stage(prop),
@@ -282,7 +370,78 @@ def c14(prop, tier):
                                   "nil from the one-pass search) is accepted; non-trivial = reference has a match on a non-empty haystack")
 
 
+CPU_MASKS = [("avx2off", "cpu.avx2=off"), ("avx2off-ssse3off", "cpu.avx2=off,cpu.ssse3=off")]
+
+
+def c12(prop, tier):
+    q = tier == "quick"
+    cfgdir = tempfile.mkdtemp(prefix="vC12cfg_")
+    try:
+        cfg_out = os.path.join(cfgdir, "cfg.out")
+        r = vlib.run_tlc("MC_Config", {"Shard": vlib.seed() % 8 if q else 0, "NShards": 8 if q else 1},
+                         "SPECIFICATION Spec\nINVARIANT Emit\n", cfg_out, workers=4, timeout=900)
+        if r.error or r.violation:
+            raise Machinery(f"MC_Config: {r.error or r.violation}")
+        cfg_states = (r.distinct, r.generated)
+
+        def masks(vh, work, out, i, fam):
+            """Re-run the default-configuration digest under masked CPU features and compare."""
+            base = os.path.join(work, f"digest_{i}.txt")
+            res = {"info": {"cpu_mask_runs": 0, "cpu_mask_patterns_compared": 0}}
+            fails = []
+            for name, godebug in CPU_MASKS:
+                dp = os.path.join(work, f"digest_{i}_{name}.txt")
+                env = dict(os.environ)
+                env["GODEBUG"] = godebug
+                p = subprocess.run([vh, "configs", "-in", out, "-cfgs", cfg_out, "-rot", "0", "-report", os.path.join(work, f"m_{i}_{name}.json"),
+                                    "-fail", os.path.join(work, f"mfail_{i}_{name}.ndjson"), "-digest", dp],
+                                   capture_output=True, text=True, timeout=1800, env=env)
+                if p.returncode != 0:
+                    raise Machinery(f"masked run {name}: {p.stderr[-400:]}")
+                res["info"]["cpu_mask_runs"] += 1
+                a = dict((l.split(" ", 1)[1], l.split(" ", 1)[0]) for l in open(base).read().splitlines() if l)
+                b = dict((l.split(" ", 1)[1], l.split(" ", 1)[0]) for l in open(dp).read().splitlines() if l)
+                res["info"]["cpu_mask_patterns_compared"] += len(a)
+                for k, v in a.items():
+                    if b.get(k) != v:
+                        fails.append({"prop": prop, "api": "cpu-mask", "mode": "first", "pattern": k.split(":", 2)[2], "hay": "",
+                                      "cfg": name, "want": "results identical with CPU vector extensions masked (GODEBUG=" + godebug + ")",
+                                      "got": "result digest over all haystacks differs", "fam": fam})
+                # failures inside the masked run (fixed configs vs default under the mask)
+                mf = os.path.join(work, f"mfail_{i}_{name}.ndjson")
+                if os.path.exists(mf):
+                    for line in open(mf):
+                        d = json.loads(line)
+                        d["cfg"] = (d.get("cfg") or "") + "+" + name
+                        fails.append(d)
+            if fails:
+                fp = os.path.join(work, f"maskfail_{i}.ndjson")
+                with open(fp, "w") as fh:
+                    for d in fails:
+                        fh.write(json.dumps(d) + "\n")
+                res["fail_path"] = fp
+            return res
+
+        def cfg_stage(vh, work):
+            return {"states": cfg_states[0], "transitions": cfg_states[1],
+                    "info": {"model_Config": {"module": "MC_Config", "distinct_states": cfg_states[0]}}}
+
+        return run_search_family(prop, tier, prop, subcmd="configs", budget_scale=0.4 if q else 0.5,
+                                 extra_args=["-cfgs", cfg_out, "-digest", "{work}/digest_{i}.txt"], per_output=masks, stages=[cfg_stage],
+                                 rule="TLC enumerates the configuration space (boundary values of every field; Valid = TLA+ transcription of "
+                                      "Validate) and the pattern universe; per pattern 6 fixed + 6 rotating valid configurations are compiled and "
+                                      "Match/FindIndex/FindSubmatchIndex/FindAllIndex/Count compared with the default configuration and with the "
+                                      "plain NFA simulation; the default-configuration results are recomputed under masked CPU features "
+                                      "(GODEBUG=cpu.avx2=off[,cpu.ssse3=off]) and compared by digest; non-trivial = a match exists on a non-empty haystack",
+                                 assumptions=["relational: no reference value is involved; the only trusted parts are TLC (enumeration) and the harness comparison",
+                                              "golang.org/x/sys/cpu honours GODEBUG=cpu.*=off (checked at setup by the harness printing the detected features)"])
+    finally:
+        shutil.rmtree(cfgdir, ignore_errors=True)
+
+
 REGISTRY = {
+    "C13": c13,
+    "C12": c12,
     "C14": c14,
     "C08": c08,
     "C01": c_search, "C02": c_search, "C03": c_search, "C04": c_search, "C10": c_search, "C11": c_search,
